@@ -27,7 +27,7 @@ MANIFEST = dict(
           'BashSem.run_from Repaired (the interpreter of the /repo HEAD script, within-word functions included) on '
           'Tables.all_tables Bash (Driver.compile_valid v) returns the status of Meaning.complete and required <= reply <= allowed '
           'for every validated tree (literals, commands, undefined nonterminals, within-word expressions over the same pieces) on '
-          'C01_domain/C01_env_ok outside ambiguous_run and outside the known mechanism KnownC01.greedy_shadow, for COMP_WORDBREAKS '
+          'C01_domain/C01_env_ok outside ambiguous_run (the former hypothesis greedy_shadow = false went away with /repo a54562b), for COMP_WORDBREAKS '
           'default and empty (C01_bash_meaning_wordbreaks); side conditions on the compiled automaton and the literal orders have '
           'decidable sufficient forms (C01_subword_side_conditions). The implementation is judged directly: the extracted Meaning.complete against the emitted '
           'script in real bash 5.2 on generated grammars inside the decided domain C01_domain (exhaustive small trees + seeded '
@@ -142,7 +142,8 @@ def prepare(ctx, exe, chunk, counters, nq, maxlen, ties):
     for c, t, d in zip(chunk, texts, dumps):
         st = d['bash']
         if 'CRASH' in st or 'PANIC' in st:
-            counters['crashed'] += 1          # C06's business; not judged here
+            counters['crashed'] += 1          # reported at the end of run(): a run in which the library dies must not pass
+            counters.setdefault('crashed_texts', []).append((t.decode('latin-1')[:2000], (st.get('PANIC') or st.get('CRASH') or '')[:200]))
             continue
         if not st.get('CHECK', '').startswith('(ok ') or 'SCRIPT' not in st or not st.get('PARSE', '').startswith('(ok '):
             counters['rejected_by_complgen'] += 1
@@ -392,6 +393,13 @@ def run(ctx, res):
         return
     quick = ctx['tier'] == 'quick'
     budget = float(os.environ.get('VERIF_C01_BUDGET', 140 if quick else 1500))
+    from .. import t2
+    ts = t2.template_status()
+    res.extra['bash_templates'] = ts
+    if ts['variant'] != 'repaired':
+        res.violations.append(report.Violation(
+            'tie T3 broken: the templates of src/bash.rs are not the ones Model/BashSem.v (variant Repaired) mirrors: variant %s, %s'
+            % (ts['variant'], ts['changed'] + ts['missing'] + ts['extra']), dict(kind='tie-T3', status=ts), found_input=False))
     nq = 8 if quick else 24
     maxlen = 3 if quick else 5
     chunk_size = 32 if quick else 96
@@ -514,6 +522,9 @@ def run(ctx, res):
                 '{a, b, <U>, one probe, --k=(x|y)} (all with <= 3 nodes, larger ones sampled in the quick tier), seeded random grammars; '
                 'only grammars complgen accepts and Domain.C01_domain/C01_env_ok (extracted) accept are run; the number of grammars is '
                 'bounded by a wall-clock budget (process creation is slow in the sandbox)')
+    for text, how in counters.pop('crashed_texts', [])[:3]:
+        res.violations.append(report.Violation('the library crashed while compiling a generated grammar: %s' % how,
+                                               dict(kind='crash', grammar=text, how=how)))
     res.extra['counters'] = counters
     res.extra['known_absorbed'] = {CLASS_OF[k]: v for k, v in absorbed.items()}
     res.extra['bash_budget_s'] = budget
